@@ -180,6 +180,10 @@ def run_cli(ctx, src, width, case, cli_dir, scopes, expect_ok):
                     return
             continue
         # success: output must be complete
+        if not os.path.exists(outp):
+            ctx.violation('p8tool luafmt%s reported success (status %r) and wrote no output file%s' % (
+                ' --overwrite' if overwrite else '', rcode, '' if expect_ok else ' for code that is not parsed to its end: it has to fail with an error'), case)
+            return
         data = open(outp, 'rb').read()
         try:
             got = rc.read_p8(data)['code']
